@@ -81,6 +81,18 @@ func c07MergeUntypedMapStream(c *Ctx) {
 						in["model"] = rep
 					}
 				}
+				// all hypotheses of program_sound_partial on the program
+				chain := p.chain()
+				parts := []string{fmt.Sprint(len(chain))}
+				for _, q := range chain {
+					parts = append(parts, q.enc())
+				}
+				topStm := &c07PStm{id: p.name, callee: &c07PCallee{name: p.name, params: p.ins, outs: p.outs}}
+				parts = append(parts, topStm.enc(), fmt.Sprint(len(chain)+1))
+				progRep := c.Drv.Ask("C07.prog", strings.Join(parts, " "))
+				progOk := strings.Contains(progRep, "progOk=true")
+				in["model_prog"] = progRep
+				r.hist(fmt.Sprintf("merge_untyped_%s_progOk=%v", map[bool]string{true: "untyped", false: "typed"}[sh.untyped], progOk))
 				_, cerr := c07RealCompile(src)
 				r.hist(fmt.Sprintf("merge_untyped_%s_compiler=%v_model=%v", map[bool]string{true: "untyped", false: "typed"}[sh.untyped], cerr == nil, modelOk))
 				if (cerr == nil) != modelOk {
@@ -104,6 +116,15 @@ func c07MergeUntypedMapStream(c *Ctx) {
 						key = "C07:invoke-fails:split-of-merged-nested-output" // known finding F-C07-SPLITMERGE
 					}
 					r.hist("merge_untyped_invoke_fails")
+					if progOk && !sh.untyped {
+						// F-C07-SPLITMERGE (known finding, typed destination): no hypothesis of program_sound_partial
+						// excludes it – disclosed in the manifest as an open gap between the model and MakePipelineCallGraph
+						r.hist("merge_typed_invoke_fails_but_progOk_true_known_gap")
+					} else if progOk {
+						r.violate(Violation{Kind: "correspondence", Key: "C07:prog:hypotheses-do-not-cover",
+							What:  "a program that cannot be invoked satisfies every hypothesis of program_sound_partial: " + firstLine(err.Error()),
+							Input: in, Broken: "Props.C07.program_sound_partial"})
+					}
 					r.violate(Violation{Kind: "property", Key: key,
 						What:  "a merged output of a mapped nested pipeline bound to " + sh.dest.mro() + " is accepted by the compiler, but the pipeline cannot be invoked: " + firstLine(err.Error()),
 						Input: in})
